@@ -62,7 +62,8 @@ class SimulationScenario():
         if "points" in dictionary:
             self.points = dictionary["points"]
             if model is not None:
-                self.model.points = self.points
+                # override the given lookups only: the model keeps its other points
+                self.model.points = {**self.model.points, **self.points}
         else:
             self.points = {}
 
